@@ -40,9 +40,9 @@ func vfC16(w *vfWorld) {
 	cfg := vfDefaultCfg()
 	cfg.ReverseProxy = t.Prob("c16.rp", 250)
 	cs.ReverseProxy = cfg.ReverseProxy
-	cs.RealIPHeader = "X-Real-IP"
-	if cfg.ReverseProxy {
-		cs.RealIPHeader = vfPick(t, "c16.realip", []string{"X-Real-IP", "X-Forwarded-For", "X-ProxyUser-IP", "X-Envoy-External-Address", "CF-Connecting-IP"})
+	// the operator may name a real-client-IP header whether or not reverse-proxy mode is on; with the mode off it is inert
+	cs.RealIPHeader = vfPick(t, "c16.realip", []string{"X-Real-IP", "X-Real-IP", "X-Forwarded-For", "X-ProxyUser-IP", "X-Envoy-External-Address", "CF-Connecting-IP"})
+	if cs.RealIPHeader != "X-Real-IP" || t.Bool("c16.realip-explicit") {
 		cfg.Extra = append(cfg.Extra, "--real-client-ip-header="+cs.RealIPHeader)
 	}
 	cfg.Store = vfPick(t, "c16.store", []string{"cookie", "redis"})
